@@ -9,7 +9,7 @@ EXTENDS Handshake, Json
 
 Flags == <<"ReplyOffsetsMoved", "MethodSlice11", "FlagBitOther", "SidLittleEndian",
            "WindowInclusive", "NoTimestampCheck", "IgnoreDecryptError", "SkipMethodCheck", "SkipUidCheck", "AdminNoSid",
-           "LowOrderAccepted", "SkipRecheckSessionless">>
+           "LowOrderAccepted", "SkipRecheckSessionless", "SkewSubSaturates", "ZeroUidBypassNoAdmin">>
 InvNames == <<"Agreement", "KeyAgreement", "Soundness", "AdminGate">>
 InvVals  == <<Agreement, KeyAgreement, Soundness, AdminGate>>
 
